@@ -225,6 +225,10 @@ def _single_defs(fn: ast.AST) -> Dict[str, ast.AST]:
                             else:
                                 for n in target_names(e):
                                     counts[n] = counts.get(n, 0) + 2
+                    elif isinstance(st.value, ast.Attribute) and st.value.attr == "shape" and all(isinstance(e, ast.Name) for e in t.elts):
+                        for k, e in enumerate(t.elts):
+                            counts[e.id] = counts.get(e.id, 0) + 1
+                            vals[e.id] = ast.Subscript(value=st.value, slice=ast.Constant(value=k), ctx=ast.Load())
                     else:
                         for n in target_names(t):
                             counts[n] = counts.get(n, 0) + 2
@@ -514,7 +518,7 @@ def _block_chain(node: ast.AST) -> List[Tuple[ast.AST, str]]:
     return out
 
 
-def reaching_def(fn: ast.AST, name: str, at: ast.AST) -> Optional[ast.Assign]:
+def reaching_def(fn: ast.AST, name: str, at: ast.AST, unpack_calls: bool = False) -> Optional[ast.Assign]:
     """The assignment `name = value` that certainly reaches statement `at`: the last binding of `name` before `at`,
     provided it lies in a block enclosing `at` (so it dominates it) and is a plain single-target assignment.  Loops
     enclosing `at` must not re-bind the name after `at` (the value of a later iteration would reach it too)."""
@@ -525,7 +529,7 @@ def reaching_def(fn: ast.AST, name: str, at: ast.AST) -> Optional[ast.Assign]:
         return None
     binds = []
     for st in walk_function(fn):
-        if isinstance(st, (ast.Assign, ast.AugAssign, ast.AnnAssign, ast.For, ast.AsyncFor, ast.With, ast.AsyncWith, ast.NamedExpr, ast.comprehension)):
+        if isinstance(st, (ast.Assign, ast.AugAssign, ast.AnnAssign, ast.For, ast.AsyncFor, ast.With, ast.AsyncWith, ast.NamedExpr)):
             if isinstance(st, ast.Assign):
                 tg = st.targets
             elif isinstance(st, (ast.With, ast.AsyncWith)):
@@ -545,27 +549,55 @@ def reaching_def(fn: ast.AST, name: str, at: ast.AST) -> Optional[ast.Assign]:
     if not before:
         return None
     last = max(before, key=lambda b: (b.lineno, getattr(b, "col_offset", 0)))
+    if isinstance(last, ast.Assign) and len(last.targets) == 1 and isinstance(last.targets[0], (ast.Tuple, ast.List)) \
+            and all(isinstance(e, ast.Name) for e in last.targets[0].elts):
+        # a, b, c = X.shape / X.size()  ->  a = X.shape[0] ... ;  a, b = u, v  ->  a = u
+        names = [e.id for e in last.targets[0].elts]
+        k = names.index(name)
+        v = last.value
+        synth = None
+        if isinstance(v, ast.Attribute) and v.attr == "shape":
+            synth = ast.Subscript(value=v, slice=ast.Constant(value=k), ctx=ast.Load())
+        elif isinstance(v, ast.Call) and isinstance(v.func, ast.Attribute) and v.func.attr == "size" and not v.args:
+            synth = ast.Subscript(value=ast.Attribute(value=v.func.value, attr="shape", ctx=ast.Load()), slice=ast.Constant(value=k), ctx=ast.Load())
+        elif isinstance(v, (ast.Tuple, ast.List)) and len(v.elts) == len(names):
+            synth = v.elts[k]
+        elif isinstance(v, ast.Call) and unpack_calls:
+            synth = ast.Subscript(value=v, slice=ast.Constant(value=k), ctx=ast.Load())
+        if synth is None:
+            return None
+        fake = ast.Assign(targets=[ast.Name(id=name, ctx=ast.Store())], value=synth, lineno=last.lineno, col_offset=last.col_offset)
+        fake._parent = getattr(last, "_parent", None)  # type: ignore[attr-defined]
+        fake._orig = last  # type: ignore[attr-defined]
+        last_for_block = last
+        last = fake
+    else:
+        last_for_block = last
     if not (isinstance(last, ast.Assign) and len(last.targets) == 1 and isinstance(last.targets[0], ast.Name)):
         return None
     par = getattr(last, "_parent", None)
-    if id(par) not in enclosing:
+    if id(par) not in enclosing and len(binds) != 1:
         return None
     # same block or an enclosing one; and when `at` sits in a loop that re-binds the name later, the back edge brings
     # that later value too - unless `last` itself is inside the same loop body (then it is re-established each round)
     for lp in loops:
-        if any(in_body_of(b, lp) for b in after_in_loop) and not in_body_of(last, lp):
+        if any(in_body_of(b, lp) for b in after_in_loop) and not in_body_of(last_for_block, lp):
             return None
-        if at_stmt in binds and in_body_of(at_stmt, lp) and not in_body_of(last, lp):
+        if at_stmt in binds and in_body_of(at_stmt, lp) and not in_body_of(last_for_block, lp):
             return None
     # the block relation must be "same statement list" or ancestor: check that `last` precedes on the chain
     for a, fld in chain:
         blk = getattr(a, fld, [])
-        if isinstance(blk, list) and any(last is x for x in blk):
+        if isinstance(blk, list) and any(last_for_block is x for x in blk):
             return last
+    # a name with ONE binding in the whole function: wherever it is read without raising, it has that value
+    if len(binds) == 1 and not any(isinstance(a, (ast.For, ast.AsyncFor, ast.While)) for a in ancestors(last_for_block)
+                                   if not isinstance(a, (ast.FunctionDef, ast.AsyncFunctionDef)) and not any(a is l for l in loops)):
+        return last
     return None
 
 
-def expand_at(fn: ast.AST, expr: Optional[ast.AST], at: ast.AST, depth: int = 10, keep: Iterable[str] = ()) -> Optional[ast.AST]:
+def expand_at(fn: ast.AST, expr: Optional[ast.AST], at: ast.AST, depth: int = 10, keep: Iterable[str] = (), unpack_calls: bool = False) -> Optional[ast.AST]:
     """`expr` as evaluated at statement `at`, with local names replaced by the expressions that reach them
     (follows re-binding chains such as `m = a & b; m = m.all(-1)`).  Parameters and unresolvable names stay."""
     if expr is None:
@@ -582,7 +614,7 @@ def expand_at(fn: ast.AST, expr: Optional[ast.AST], at: ast.AST, depth: int = 10
             def visit_Name(self, node: ast.Name):
                 if not isinstance(node.ctx, ast.Load) or node.id in keep:
                     return node
-                rd = reaching_def(fn, node.id, at_)
+                rd = reaching_def(fn, node.id, at_, unpack_calls)
                 if rd is None:
                     return node
                 return go(rd.value, rd, d - 1)
@@ -593,3 +625,40 @@ def expand_at(fn: ast.AST, expr: Optional[ast.AST], at: ast.AST, depth: int = 10
         return T().visit(clone(e))
 
     return go(expr, at, depth)
+
+
+import re as _re
+
+
+def dims(text: str) -> str:
+    """Canonical spelling of tensor dimensions in normalised text: X.shape[k] and X.size(k) are the same thing."""
+    return _re.sub(r"\.shape\[(-?\d+)\]", r".size(\1)", text)
+
+
+def peel(e: ast.AST, *attrs: str) -> ast.AST:
+    """Strip trailing method calls such as .to(...), .float(), .contiguous() whose names are in `attrs`."""
+    while isinstance(e, ast.Call) and isinstance(e.func, ast.Attribute) and e.func.attr in attrs:
+        e = e.func.value
+    return e
+
+
+class _StripDevice(ast.NodeTransformer):
+    def visit_Call(self, node: ast.Call):
+        node = self.generic_visit(node)
+        if isinstance(node.func, ast.Attribute):
+            if node.func.attr in ("cuda", "cpu", "contiguous") and not node.args:
+                return node.func.value
+            if node.func.attr == "to" and len(node.args) == 1 and not node.keywords:
+                a = node.args[0]
+                if (isinstance(a, ast.Attribute) and a.attr == "device") or (isinstance(a, ast.Name) and "device" in a.id):
+                    return node.func.value
+        return node
+
+
+def strip_device(e: Optional[ast.AST]) -> Optional[ast.AST]:
+    """Remove device moves (.to(x.device), .cuda(), .cpu(), .contiguous()): they never change values."""
+    if e is None:
+        return None
+    from .inline import clone
+
+    return _StripDevice().visit(clone(e))
